@@ -532,6 +532,7 @@ func luaEq(jv any, r respc.Reply) (bool, string) {
 			return true, ""
 		}
 		if len(x) == 1 {
+			// a status: RESP sends +text, JSON keeps the table {"ok": text}
 			if s, ok := x["ok"].(string); ok && r.Kind == '+' && normErr(s) == normErr(r.Str) {
 				return true, ""
 			}
@@ -614,13 +615,7 @@ func crossCompare(args []string, r respc.Reply, j map[string]any) (ok bool, comp
 		}
 		return false, "error", fmt.Sprintf("JSON says error %q, RESP says %s", jerr, clip(r.String()))
 	case rerr && jok:
-		if strings.HasPrefix(cmd, "EVAL") {
-			if m, ok := j["result"].(map[string]any); ok {
-				if s, ok := m["err"].(string); ok && normErr(s) == normErr(r.Str) {
-					return true, "", ""
-				}
-			}
-		}
+		// (a script result {err = ...} is an error reply in both modes, {ok = ...} a status in both)
 		return false, "error", fmt.Sprintf("RESP says error %q, JSON says ok", r.Str)
 	}
 	// both succeeded
